@@ -69,7 +69,7 @@ struct SemInstance
 struct Quantity
 {
     QKind kind = QKind::CONSTANT;
-    int family = 0;                      // 0 dimensionless, 1 volt-like, 2 second-like
+    int family = 0;                      // 0 dimensionless, 1 volt-like, 2 second-like, 3 volt-per-second-like (compound user units)
     std::vector<SemInstance> inst;       // inst[0] is the home variable
     int defInst = 0;                     // instance (component) in which the defining equation is written
     ExprP def;                           // CI leaves carry the quantity index in Expr::quantity; for STATE: the rate
@@ -111,9 +111,11 @@ struct SemOptions
     bool ode = true;
     bool nla = false;
     bool scaledUnits = true;
+    bool compoundUnits = false;          // some quantities use units built from two user-defined units (family 3)
     bool encapsulation = true;
     int exprDepth = 2;
     bool initByConstant = true;
+    int nlaSystems = 1;                  // number of independent implicit systems (when nla)
     bool nlaGuess = true;                // unknowns of implicit systems carry an initial_value (the solver's initial guess)
     bool nlaDense = false;               // every equation of an implicit system reads every unknown
     bool odeSelfRate = false;            // force one ODE of the form dx/dt = x (a bare reference to its own state)
